@@ -1,5 +1,5 @@
 // auto-generated: "lalrpop 0.23.1"
-// sha3: 26da0c83c98f44d1b627cdcf0118443dbd65bbed29a9c0bfef0d3fe7e3ebdac6
+// sha3: 7adf67c9b3ebf627b8aa8310f84d80b117beaa17835312ea1a18dc4127cde591
 use crate::rt::*;
 #[allow(unused_extern_crates)]
 extern crate lalrpop_util as __lalrpop_util;
@@ -617,23 +617,21 @@ fn __action1<
 fn __action2<
 >(
     (_, l, _): (i64, i64, i64),
-    (_, pR0, _): (i64, i64, i64),
     (_, r, _): (i64, i64, i64),
 ) -> Tree
 {
-    { probe("A#0", 0, 'R', pR0); node("A#0", l, r, vec![]) }
+    node("A#0", l, r, vec![])
 }
 
 #[allow(clippy::too_many_arguments, clippy::needless_lifetimes, clippy::just_underscores_and_digits, clippy::extra_unused_type_parameters)]
 fn __action3<
 >(
     (_, l, _): (i64, i64, i64),
-    (_, pR0, _): (i64, i64, i64),
     (_, c0, _): (i64, Tok, i64),
     (_, r, _): (i64, i64, i64),
 ) -> Tree
 {
-    { probe("A#1", 0, 'R', pR0); node("A#1", l, r, vec![Tree::from(c0)]) }
+    node("A#1", l, r, vec![Tree::from(c0)])
 }
 
 #[allow(clippy::too_many_arguments, clippy::needless_lifetimes, clippy::just_underscores_and_digits, clippy::extra_unused_type_parameters)]
@@ -703,7 +701,6 @@ fn __action9<
 fn __action10<
 >(
     __0: (i64, i64, i64),
-    __1: (i64, i64, i64),
 ) -> Tree
 {
     let __start0 = __0.0.clone();
@@ -716,7 +713,6 @@ fn __action10<
     __action2(
         __temp0,
         __0,
-        __1,
     )
 }
 
@@ -724,9 +720,8 @@ fn __action10<
     clippy::just_underscores_and_digits, clippy::clone_on_copy, clippy::unit_arg)]
 fn __action11<
 >(
-    __0: (i64, i64, i64),
-    __1: (i64, Tok, i64),
-    __2: (i64, i64, i64),
+    __0: (i64, Tok, i64),
+    __1: (i64, i64, i64),
 ) -> Tree
 {
     let __start0 = __0.0.clone();
@@ -740,7 +735,6 @@ fn __action11<
         __temp0,
         __0,
         __1,
-        __2,
     )
 }
 
@@ -866,21 +860,13 @@ fn __action17<
 {
     let __start0 = __lookbehind.clone();
     let __end0 = __lookahead.clone();
-    let __start1 = __lookbehind.clone();
-    let __end1 = __lookahead.clone();
     let __temp0 = __action8(
         &__start0,
         &__end0,
     );
     let __temp0 = (__start0, __temp0, __end0);
-    let __temp1 = __action8(
-        &__start1,
-        &__end1,
-    );
-    let __temp1 = (__start1, __temp1, __end1);
     __action10(
         __temp0,
-        __temp1,
     )
 }
 
@@ -891,24 +877,16 @@ fn __action18<
     __0: (i64, Tok, i64),
 ) -> Tree
 {
-    let __start0 = __0.0.clone();
-    let __end0 = __0.0.clone();
-    let __start1 = __0.2.clone();
-    let __end1 = __0.2.clone();
+    let __start0 = __0.2.clone();
+    let __end0 = __0.2.clone();
     let __temp0 = __action8(
         &__start0,
         &__end0,
     );
     let __temp0 = (__start0, __temp0, __end0);
-    let __temp1 = __action8(
-        &__start1,
-        &__end1,
-    );
-    let __temp1 = (__start1, __temp1, __end1);
     __action11(
-        __temp0,
         __0,
-        __temp1,
+        __temp0,
     )
 }
 
